@@ -250,8 +250,8 @@ def check_tree(model: SrcModel, e) -> List[Tuple[str, str, str]]:
             if "then" in repr(fast) or any(k not in fc_keys for k in fkeys):
                 problems.append(("C07.tree", text, f"{text} under {asg}: collected expression {fce!r} is not made of the format constraint keys {fc_keys} joined by U/O/X"))
                 continue
-        if refsem.nested_attachment(e):
-            continue
+        if refsem.nested_attachment(e) and text not in NESTED_CHECKED:
+            continue  # (the general reading of nested attachments is ambiguous; the listed shapes have an unambiguous one)
         for fcs in fc_assignments(fc_keys):
             want_fc = refsem.fc_reading(e, rc, fcs)
             frec = evaluate_tree(model, e, rc, fcs)
@@ -318,6 +318,8 @@ def source_digest(model: SrcModel) -> str:
     return h.hexdigest()[:24]
 
 
+NESTED_CHECKED = {refsem.unparse(refsem.parse_condition(t_)) for t_ in (
+    "[901]([1][902])", "([1][902])[901]", "[901]([1][902]) U [3]", "([1][902] U [3])[901]", "[903]([1][901] O [3][902])")}
 EXTRA_TREES = [
     # deeper / wider shapes that no size bound reaches: bracketed groups on both sides, four format keys, zero-padded
     # keys, the same format key in both branches, hints shared between operands, 93x keys, unattached format constraints
